@@ -927,7 +927,7 @@ _LP = "skfem/element/element_line/element_line_pp.py"
 _GUARD = "        if self._X.shape != X.shape or (self._X != X).any():"
 MUTANTS = [
     ("direct solver hands a non-canonical operand to spsolve",
-     (_U, "        if not A.has_canonical_format:\n            A = A.copy()  "
+     (_U, "        if not getattr(A, 'has_canonical_format', True):\n            A = A.copy()  "
       "# spsolve sorts the indices of its operand in place\n", ""),
      "C15-R5"),
     ("symmetric eigensolver leaves the start vector to ARPACK",
@@ -1074,9 +1074,9 @@ MUTANTS = [
      (_U, "    Aout = A if overwrite else A.copy()\n\n    # set rows on lhs "
       "to zero", "    Aout = A\n\n    # set rows on lhs to zero"), "C15-R5"),
     ("penalize: right-hand side modified in place",
-     (_U, "    bout = b if overwrite else b.astype(np.result_type(b, x))\n"
-      "    bout[D] = x[D] / epsilon", "    bout = b\n    bout[D] = x[D] / "
-      "epsilon"), "C15-R5"),
+     (_U, "    bout = b if overwrite else b.astype(np.result_type(b, x, "
+      "np.float32))\n    bout[D] = x[D] / epsilon", "    bout = b\n    "
+      "bout[D] = x[D] / epsilon"), "C15-R5"),
     ("mesh transformation writes into the operand's points",
      ("skfem/mesh/mesh.py", "    def remove_unused_nodes(self):\n",
       "    def _shifted(self, d):\n        p = self.doflocs\n        "
@@ -1097,7 +1097,7 @@ TWINS = [
       "        opts.setdefault('v0', np.ones(K.shape[0]))\n"
       "        return eigsh(K, M=M, **opts)")),
     ("direct solver always copies its operand",
-     (_U, "        if not A.has_canonical_format:\n            A = A.copy()  "
+     (_U, "        if not getattr(A, 'has_canonical_format', True):\n            A = A.copy()  "
       "# spsolve sorts the indices of its operand in place\n",
       "        A = A.copy()\n")),
     ("exterior facets re-oriented with np.where",
